@@ -551,7 +551,9 @@ def percent_format(interp, fmt, arg):
         width, num = arg
         if interp.tag(num) not in ("vint", "vbool") or interp.tag(width) not in ("vint", "vbool"):
             interp.raise_(TypeError, "%x format: an integer is required")
-        return interp.mk("vstr", S.HexPad(interp.int_term(width), interp.int_term(num)))
+        r = S.HexPad(interp.int_term(width), interp.int_term(num))
+        interp.ctx.axiom(z3.InRe(r, S.ASCII_RE), "'%0*x' rendering is ASCII")
+        return interp.mk("vstr", r)
     if fmt == "%02x":
         if interp.tag(arg) not in ("vint", "vbool"):
             interp.raise_(TypeError, "%x format: an integer is required")
